@@ -49,7 +49,7 @@ pub struct RunPlan {
     pub ord_bulk: Option<(i32, u8)>,
 }
 
-const SEG_LENS: &[i64] = &[17, 18, 31, 32, 33, 63, 64, 65, 100, 255, 256, 1000, 1023, 1024, 1025, 1 << 20, (1 << 20) + 1, 3_000_000, 1 << 31, 1 << 40, (1 << 49) + 1, 1 << 50, (1 << 55) + 3];
+const SEG_LENS: &[i64] = &[17, 18, 31, 32, 33, 63, 64, 65, 100, 255, 256, 1000, 1023, 1024, 1025, 1 << 20, (1 << 20) + 1, 3_000_000, 1 << 31, 1 << 40, (1 << 49) + 1, 1 << 50, (1 << 55) + 3, (1 << 62) + 5];
 
 fn draw_seg_domain(r: &mut Rng) -> (u8, i64, i64) {
     let len = *r.pick(SEG_LENS);
@@ -70,7 +70,7 @@ fn draw_seg_domain(r: &mut Rng) -> (u8, i64, i64) {
         0 => (i32::MIN as i64, i32::MAX as i64),
         1 => (i16::MIN as i64, i16::MAX as i64),
         2 => (0, 255),
-        _ => (-(1i64 << 60), 1i64 << 60),
+        _ => (-(1i64 << 62), (1i64 << 62) - 1),
     };
     let lo = match r.below(6) {
         0 => 0,
@@ -207,6 +207,11 @@ pub fn draw_plan(prop: &str, index: u64, r: &mut Rng, thorough: bool) -> RunPlan
                 &[0, 1, 2, 3, 7, 8, 9, 15, 16, 17, 31, 33, 63, 64, 65, 127, 128, 129, 255, 257, 511, 513, 1023, 1025, 2047, 4095, 4097, 8191, 16383, 16385, 32767, 65537, 200_000, 262_145]
             };
             // boundary sizes most of the time, any size in between otherwise
+            if index % 2 == 1 {
+                // general histories: the arena may have been much fuller earlier than it is at export time
+                c.universe = *r.pick(&[64, 1024, 1 << 20]);
+                return RunPlan { cfg: c, len: draw_len(r, thorough).max(if r.chance(1, 2) { 200 } else { 40 }), bulk: None, ord_bulk: None };
+            }
             let n = if r.chance(2, 3) { *r.pick(sizes) } else { r.range(0, if thorough { 300_000 } else { 20_000 }) as usize };
             let order = r.below(3) as u8;
             let churn = r.chance(1, 3);
@@ -238,13 +243,14 @@ pub fn draw_plan(prop: &str, index: u64, r: &mut Rng, thorough: bool) -> RunPlan
     let mut cfg = cfg;
     let bulk_every = if thorough { 20_000 } else { 5_000 };
     if matches!(cfg.world, WorldKind::Map | WorldKind::Set) && cfg.colls == C_TREE && !cfg.has(O_TORN) && index % bulk_every == 11 {
-        let n = *r.pick(&[150_000, 262_144 + 7, 300_000, 524_288]);
-        let pat = r.below(3) as u8;
+        let n = *r.pick(&[150_000, 300_000, 524_288, 1_048_576 + 11, 1_048_576 + 11]);
+        let _ = n;
+        let pat = *r.pick(&[0u8, 1, 2, 2]);
         cfg.key_lo = 0;
         cfg.universe = n + 16;
         cfg.cap = *r.pick(&[0usize, 8, 1000]);
         ord_bulk = Some((n, pat));
-        len = 2 + r.below(14) as usize;
+        len = 8 + r.below(10) as usize;
     }
     RunPlan { cfg, len, bulk, ord_bulk }
 }
